@@ -187,7 +187,13 @@ def _protocol(ctx, g, x, root, fl, view):
                 ctx.add('P3b', 'T-DOM', fn, okr, 'after pinning, the position is re-checked before the payload is read' if okr else
                         'payload read reachable from the pin without re-checking the stream position', flavour=fl, where=where, sub=sub + '|recheck')
                 # unpin after the read: a path from pin to unpin passes the read or the re-check-failed edge
-                oku = all(d not in x.reach_from(i, blocked={R} | recheck_ne | (inc_n - {i})) for i in inc_n for d in dec_n)
+                # (any payload read of this root: the single-consumer path may have a read site of its own that no pinned
+                # path passes; that one is not reachable from a pin at all)
+                if any(x.reaches(i, R) for i in inc_n):
+                    allR = {r_ for (r_, k_) in consuming}
+                    oku = all(d not in x.reach_from(i, blocked=allR | recheck_ne | (inc_n - {i})) for i in inc_n for d in dec_n)
+                else:
+                    oku = True
                 ctx.add('P3b', 'T-MUST', fn, oku, 'the slot is unpinned only after the payload read (or on the re-check-failed edge)' if oku else
                         'unpin reachable from the pin before the payload read', flavour=fl, where=where, sub=sub + '|unpin-after-read')
         # ---- P3d / P4: Release between read and commit
@@ -508,7 +514,8 @@ def _p5(ctx):
         for (nid, si, rv) in x.aggs(r'ReaderState::Single$'):
             if x.home(nid) != g.root_inst:
                 continue
-            fresh = constructs(F, name, 'ReaderMeta')
+            # a stream created here (its consumer counter is built by this function or by a helper new to the tree)
+            fresh = constructs(F, name, 'ReaderMeta') or any(x.home(n_) == g.root_inst for (n_, _s, _r) in x.aggs(r'ReaderMeta::ReaderMeta$'))
             acq = [f_ for (f_, o, _) in x.fences if has_acquire(o) and x.dom(one, f_)]
             ok = fresh or (x.dom(one, nid) and any(x.dom({f_}, nid) for f_ in acq))
             ctx.add('P5a', 'T-GUARD', name, ok, ('ReaderState::Single for a fresh stream' if fresh else 'Single stored only on the consumers==1 edge after an Acquire fence') if ok else
